@@ -32,6 +32,7 @@ func init() {
 	register("C07", true, checkC07)
 	register("C17", true, checkC17)
 	register("C18", true, checkC18)
+	register("C16", true, checkC16)
 }
 
 func main() {
